@@ -48,6 +48,7 @@ struct call {
     int64_t pri;            /* pq put */
     void *val;
     bool waited;            /* was seen in a waiting list during the call */
+    uint64_t first_arr; double first_et;   /* arrival number / entry time of its first waiting-list entry */
     bool granted_flag;
 };
 
